@@ -176,6 +176,21 @@ def theorems_of(module):
     return names
 
 
+def local_imports(module, seen=None):
+    """the module and, transitively, every NurbsVerif module it imports"""
+    seen = seen if seen is not None else []
+    if module in seen:
+        return seen
+    seen.append(module)
+    path = os.path.join(LEAN, module.replace('.', os.sep) + '.lean')
+    if os.path.exists(path):
+        for line in open(path, encoding='utf-8'):
+            m = re.match(r'^import\s+(NurbsVerif\.\S+)', line)
+            if m:
+                local_imports(m.group(1), seen)
+    return seen
+
+
 def axioms_audit(module, names):
     """`#print axioms` for every theorem; returns {name: [axioms]} or raises"""
     os.makedirs(os.path.join(LEAN, '.lake', 'audit'), exist_ok=True)
@@ -273,6 +288,17 @@ def check_property(mod, tier, seed, replay=None):
                 discharged.append(n)
             else:
                 problems.append(dict(kind='axiom-audit', detail="%s: %s" % (n, axioms.get(n, 'not reported'))))
+    # thorough tier: independent re-check of the compiled proofs (leanchecker replays the .olean files
+    # of the property module and of every NurbsVerif module it imports through the kernel)
+    recheck = None
+    if tier == 'thorough' and build['ok']:
+        mods = local_imports(prop_module)
+        t1 = time.time()
+        rcc, o1, e1 = run(['lake', 'env', 'leanchecker'] + mods, cwd=LEAN, timeout=7200)
+        recheck = dict(cmd='lake env leanchecker <%d modules>' % len(mods), modules=len(mods), ok=(rcc == 0), wall_s=round(time.time() - t1, 1),
+                       output=(o1 + e1)[-400:])
+        if rcc != 0:
+            problems.append(dict(kind='leanchecker', detail=(o1 + e1)[-800:]))
     # property specific static obligations (e.g. the C12 translator) -------------------
     extra = {}
     if hasattr(mod, 'static_checks'):
@@ -408,7 +434,7 @@ def check_property(mod, tier, seed, replay=None):
             oracle_runs=oracle_runs, oracle_failures=len(failures), known_findings=kf_report,
             samples=samples,
             generator=getattr(mod, 'STATS', {}),
-            lean_build=build, problems=problems,
+            lean_build=build, leanchecker=recheck, problems=problems,
         ),
         assumptions=list(getattr(mod, 'ASSUMPTIONS', [])) + [
             "theorems are about exact arithmetic over an ordered field; IEEE rounding is not modelled",
